@@ -1410,4 +1410,70 @@ theorem spaces_ws (n : Nat) : (spaces n).all isWs = true := by
   | zero => rfl
   | succ n ih => simpa [spaces, isWs] using ih
 
+
+/-! ## materialisation does not change the printed bytes (C27) -/
+
+
+theorem escChar_plain (c : Char) (h1 : mustEscape c = false) (h2 : (c.toNat == 0x7f) = false) :
+    escChar false c = utf8Enc c := by
+  simp only [mustEscape, Bool.or_eq_false_iff, decide_eq_false_iff_not] at h1
+  have h3 : ¬ c.toNat = 0x7f := by simpa using h2
+  obtain ⟨⟨a, b⟩, d⟩ := h1
+  unfold escChar
+  dsimp only
+  rw [if_neg (by omega), if_neg (by omega), if_neg (by omega), if_neg (by omega), if_neg (by omega),
+    if_neg (by omega), if_neg (by omega), if_neg (by omega), if_neg (by simp)]
+
+theorem escBody_plain (cs : List Char) (h1 : cs.all (fun c => !mustEscape c) = true) (h2 : hasDel cs = false) :
+    escBody false cs = rawBody cs := by
+  induction cs with
+  | nil => rfl
+  | cons c cs ih =>
+    simp only [List.all_cons, Bool.and_eq_true, Bool.not_eq_true'] at h1
+    simp only [hasDel, List.any_cons, Bool.or_eq_false_iff] at h2
+    simp only [escBody, rawBody, escChar_plain c h1.1 h2.1]
+    rw [ih h1.2 (by simpa [hasDel] using h2.2)]
+
+/-- a string prints the same whether or not its source spelling is remembered -/
+theorem strBytes_owned (c : Cfg) (k : Str) (hk : k.wf = true) : strBytes c ⟨k.cs, true⟩ = strBytes c k := by
+  unfold strBytes
+  by_cases h : (!c.ascii && !k.esc && !hasDel k.cs) = true
+  · simp only [Bool.and_eq_true, Bool.not_eq_true'] at h
+    have hw : k.cs.all (fun c => !mustEscape c) = true := by
+      simp only [Str.wf, h.1.2, Bool.false_or] at hk; exact hk
+    simp [h.1.1, h.1.2, h.2, escBody_plain k.cs hw h.2]
+  · have : (!c.ascii && !true && !hasDel k.cs) = false := by simp
+    simp only [this, h]
+
+mutual
+  theorem render_owned (c : Cfg) : ∀ (w : V) (lvl : Nat), w.wf = true → render c lvl (owned w) = render c lvl w
+    | .null, _, _ => rfl
+    | .bool _, _, _ => rfl
+    | .num _, _, _ => rfl
+    | .str s, _, h => by simpa [owned, render] using strBytes_owned c s (by simpa [V.wf] using h)
+    | .arr [], _, _ => rfl
+    | .obj [], _, _ => rfl
+    | .arr (x :: xs), lvl, h => by
+      have hwf : x.wf = true ∧ wfList xs = true := by simpa [V.wf, wfList] using h
+      simp only [owned, ownedList, render, render_owned c x (lvl + 1) hwf.1, renderRest_owned c xs (lvl + 1) hwf.2]
+    | .obj ((k, x) :: fs), lvl, h => by
+      have hwf : (k.wf = true ∧ x.wf = true) ∧ wfFields fs = true := by simpa [V.wf, wfFields] using h
+      simp only [owned, ownedFields, render, render_owned c x (lvl + 1) hwf.1.2,
+        renderFields_owned c fs (lvl + 1) hwf.2, strBytes_owned c k hwf.1.1]
+  theorem renderRest_owned (c : Cfg) : ∀ (xs : List V) (lvl : Nat), wfList xs = true →
+      renderRest c lvl (ownedList xs) = renderRest c lvl xs
+    | [], _, _ => rfl
+    | x :: xs, lvl, h => by
+      have hwf : x.wf = true ∧ wfList xs = true := by simpa [wfList] using h
+      simp only [ownedList, renderRest, render_owned c x lvl hwf.1, renderRest_owned c xs lvl hwf.2]
+  theorem renderFields_owned (c : Cfg) : ∀ (fs : List (Str × V)) (lvl : Nat), wfFields fs = true →
+      renderFields c lvl (ownedFields fs) = renderFields c lvl fs
+    | [], _, _ => rfl
+    | (k, x) :: fs, lvl, h => by
+      have hwf : (k.wf = true ∧ x.wf = true) ∧ wfFields fs = true := by simpa [wfFields] using h
+      simp only [ownedFields, renderFields, render_owned c x lvl hwf.1.2, renderFields_owned c fs lvl hwf.2,
+        strBytes_owned c k hwf.1.1]
+end
+
+
 end SV.JqOut
